@@ -44,6 +44,8 @@ pub enum HOp {
     WriteHelp(bool, FaultPlan),
     Parse(Vec<B>),
     Build,
+    /// the application adds one more subcommand to the long-lived command (after whatever happened before)
+    AddSub,
 }
 
 #[derive(Clone, Debug, Hash, Serialize, Deserialize, PartialEq)]
@@ -451,14 +453,15 @@ impl Engine for HelpSim {
         let render_only = rng.chance(1, 3);
         for _ in 0..n_ops {
             let path: Vec<u8> = (0..rng.usize(3)).map(|_| rng.below(4) as u8).collect();
-            let k = if render_only { rng.weighted(&[4, 8, 0, 0, 0, 0]) } else { rng.weighted(&[4, 8, 5, 3, 2, 1]) };
+            let k = if render_only { rng.weighted(&[4, 8, 0, 0, 0, 0, 0]) } else { rng.weighted(&[4, 8, 5, 3, 2, 1, 1]) };
             ops.push(match k {
                 0 => HOp::Resize(gen_width(rng), if rng.chance(1, 4) { gen_width(rng) } else { Width::Unset }),
                 1 => HOp::Render(path, *rng.pick(&[Mode::Short, Mode::Short, Mode::Long, Mode::Long, Mode::Usage])),
                 2 => HOp::ParseHelp(path, *rng.pick(&[HelpHow::ShortFlag, HelpHow::LongFlag, HelpHow::HelpSubcommand])),
                 3 => HOp::WriteHelp(rng.coin(), gen_plan(rng, 1, 600, true)),
                 4 => HOp::Parse(gen_argv(rng, &spec, 6)),
-                _ => HOp::Build,
+                5 => HOp::Build,
+                _ => HOp::AddSub,
             });
         }
         C12Sc { spec, ops }
@@ -576,6 +579,7 @@ fn exec_ops(sc: &C12Sc, log: &mut Log, out: &mut Outcome) {
     let mut cols = Width::Unset;
     let mut lines = Width::Unset;
     let mut render_only_history = true;
+    let mut late_subs = 0u32;
     let flatten_anywhere = {
         let mut f = false;
         sc.spec.walk(&mut |c, _| f |= c.has(CmdSetting::FlattenHelp), 0);
@@ -804,6 +808,20 @@ fn exec_ops(sc: &C12Sc, log: &mut Log, out: &mut Outcome) {
                 let _ = catch(|| aged.build());
                 out.count("op.build");
                 ev!(log, "{i} build");
+            }
+            HOp::AddSub => {
+                // only where the definition already has subcommands: a first subcommand can make a valid
+                // definition invalid (e.g. a required `last` positional)
+                if sc.spec.subs.is_empty() {
+                    continue;
+                }
+                render_only_history = false;
+                shape.add(32);
+                late_subs += 1;
+                let late = Command::new(format!("late9{late_subs:02}")).about("late addition").arg(clap::Arg::new("lateopt").long(format!("lateopt9{late_subs:02}")).action(clap::ArgAction::Set).help("late option"));
+                aged = std::mem::take(&mut aged).subcommand(late);
+                out.count("op.add_subcommand_late");
+                ev!(log, "{i} add_sub late9{late_subs:02}");
             }
         }
     }
